@@ -675,7 +675,8 @@ class _ActionSubCommands(_SubParsersAction):
         # parse arguments
         if subcommand in self._name_parser_map:
             subparser = self._name_parser_map[subcommand]
-            subnamespace = namespace.get(subcommand).clone() if subcommand in namespace else None
+            subnamespace = namespace.get(subcommand)
+            subnamespace = subnamespace.clone() if isinstance(subnamespace, Namespace) else None  # e.g. "fit:" (null)
             kwargs = dict(_skip_validation=True, **parse_kwargs.get())
             namespace[subcommand] = subparser.parse_args(arg_strings, namespace=subnamespace, **kwargs)
 
